@@ -225,7 +225,9 @@ func classify(raw []byte, at int64, got []byte, cuts []int64, keys map[string][]
 				}
 			}
 		}
-		out = append(out, map[string]interface{}{"from": pos(pos0), "to": pos(next), "sector": pos0 / encSector, "classes": classes})
+		// whole: the sector this segment lies in is stored completely (an image that ends inside a sector has one that is not)
+		out = append(out, map[string]interface{}{"from": pos(pos0), "to": pos(next), "sector": pos0 / encSector, "classes": classes,
+			"whole": (pos0/encSector+1)*encSector <= int64(len(raw))})
 		pos0 = next
 	}
 	return out
